@@ -42,6 +42,20 @@ pub struct SimAgent {
     ctl: CommandLane<Ctl>,
 }
 
+impl SimAgent {
+    /// An agent whose persistent map lanes are constructed with contents (a custom factory instead of `Default`):
+    /// whatever the store holds replaces them when the agent starts with persistence.
+    pub fn with_initial_contents() -> SimAgent {
+        use swimos_agent::AgentItem;
+        let mut a = SimAgent::default();
+        let id = a.map_main.id();
+        a.map_main = MapLane::new(id, [(900, 800_001), (901, 800_002)].into_iter().collect());
+        let id = a.bmap.id();
+        a.bmap = MapLane::new(id, [(900, 800_003)].into_iter().collect());
+        a
+    }
+}
+
 pub const VALUE_LANES: [&str; 2] = ["val", "tval"];
 pub const MAP_LANES: [&str; 4] = ["map", "bmap", "tmap", "smap"];
 pub const PERSISTENT_ITEMS: [&str; 6] = ["val", "map", "bmap", "smap", "vstore", "mstore"];
